@@ -297,12 +297,18 @@ def api_bank(ctx, bank, rng):
                                                'via': 'API'}, repr(exc))
     for task in ('GapDegree', 'PosTags', 'SentenceCount'):
         inst = getattr(R.treeanalysis, task)()
-        for spec in bank:
-            live = common.live_tree(ctx, spec, rng)
-            _set_cur(ctx, spec, live)
-            inst.run(live)
-        with common.captured() as (out, err):
-            inst.done()
+        try:
+            for spec in bank:
+                live = common.live_tree(ctx, spec, rng)
+                _set_cur(ctx, spec, live)
+                inst.run(live)
+            with common.captured() as (out, err):
+                inst.done()
+        except Exception as exc:
+            ctx.fail('C16:task-raises-' + task,
+                     {'kind': 'bank', 'bank': bank, 'task': task,
+                      'via': 'API'}, repr(exc))
+            continue
         ctx.hook('api.' + task)
         check_report(ctx, bank, out.getvalue(), task, 'API')
         if task == 'PosTags':
